@@ -251,6 +251,31 @@ pub fn consistent_with_some_order(trace: &[Decision], n: usize, depth: usize, pe
 // bug programs and the exact hit probability of the model
 // ------------------------------------------------------------------------------------------------
 
+/// set of schedules (leaf indices)
+#[derive(Clone, Debug, PartialEq, Eq, PartialOrd, Ord)]
+pub struct Bits(pub Vec<u64>);
+
+impl Bits {
+    pub fn new(n: usize) -> Bits {
+        Bits(vec![0; n.div_ceil(64)])
+    }
+    pub fn set(&mut self, i: usize) {
+        self.0[i / 64] |= 1 << (i % 64);
+    }
+    pub fn get(&self, i: usize) -> bool {
+        self.0[i / 64] & (1 << (i % 64)) != 0
+    }
+    pub fn and(&self, o: &Bits) -> Bits {
+        Bits(self.0.iter().zip(o.0.iter()).map(|(a, b)| a & b).collect())
+    }
+    pub fn is_empty(&self) -> bool {
+        self.0.iter().all(|w| *w == 0)
+    }
+    pub fn subset_of(&self, o: &Bits) -> bool {
+        self.0.iter().zip(o.0.iter()).all(|(a, b)| a & !b == 0)
+    }
+}
+
 /// An event = (task, index of the step within the task); a constraint (a, b) = a happens before b.
 pub type Event = (u8, u8);
 pub type Constraint = (Event, Event);
@@ -267,10 +292,28 @@ pub struct ProgInfo {
     /// settled estimate of k: the maximum over all schedules
     pub k: usize,
     pub leaf_index: Vec<u32>,
+    /// per task: index of its first step that counts as an observable event.  In the runtime an
+    /// operation executes at the *beginning* of a step (right after the scheduling point that
+    /// precedes it), so a task's first step (from its start to its first scheduling point) carries
+    /// no operation; main's spawn steps carry none either.
+    pub event_from: Vec<u8>,
 }
 
 impl ProgInfo {
+    /// every step is an event (a task's first scheduled step already has a visible effect)
     pub fn new(prog: CounterProg) -> ProgInfo {
+        let ef = vec![0u8; prog.n()];
+        ProgInfo::with_events(prog, ef)
+    }
+
+    /// the runtime's shape: the first step of every task is a prologue without operation
+    pub fn realistic(prog: CounterProg) -> ProgInfo {
+        let n = prog.n();
+        let ef: Vec<u8> = (0..n).map(|i| if i == 0 && prog.spawn { (n as u8 - 1).max(1) } else { 1 }).collect();
+        ProgInfo::with_events(prog, ef)
+    }
+
+    pub fn with_events(prog: CounterProg, event_from: Vec<u8>) -> ProgInfo {
         let tree = prog.tree();
         let leaves = tree.cut_ends(usize::MAX);
         let n = prog.n();
@@ -312,13 +355,24 @@ impl ProgInfo {
             multi,
             k,
             leaf_index,
+            event_from,
         }
+    }
+
+    /// the same program viewed with a different estimate of k
+    pub fn with_k(&self, k: usize) -> ProgView<'_> {
+        ProgView { pi: self, k }
+    }
+
+    /// total number of scheduling steps of the program (the k of the PCT paper)
+    pub fn total_steps(&self) -> usize {
+        (0..self.prog.n()).map(|i| self.prog.total(i) as usize).sum()
     }
 
     pub fn events(&self) -> Vec<Event> {
         let mut v = Vec::new();
         for t in 0..self.prog.n() {
-            for i in 0..self.prog.total(t) {
+            for i in self.event_from[t]..self.prog.total(t) {
                 v.push((t as u8, i));
             }
         }
@@ -340,11 +394,11 @@ impl ProgInfo {
     }
 
     /// bitset (over leaves) of the schedules that satisfy the constraint
-    pub fn sat(&self, c: &Constraint) -> u128 {
-        let mut s = 0u128;
+    pub fn sat(&self, c: &Constraint) -> Bits {
+        let mut s = Bits::new(self.pos.len());
         for (li, ps) in self.pos.iter().enumerate() {
             if ps[c.0 .0 as usize][c.0 .1 as usize] < ps[c.1 .0 as usize][c.1 .1 as usize] {
-                s |= 1u128 << li;
+                s.set(li);
             }
         }
         s
@@ -364,6 +418,37 @@ impl ProgInfo {
             let nd = &self.tree.nodes[at as usize];
             if nd.arity == 0 {
                 return self.leaf_index[at as usize];
+            }
+            let off = &nd.ids[..nd.arity as usize];
+            let c = m.decide(off, current, nd.yielding);
+            *transitions += 1;
+            let j = off.iter().position(|x| *x == c).unwrap();
+            current = Some(c);
+            at = nd.kids[j];
+        }
+    }
+}
+
+pub struct ProgView<'a> {
+    pub pi: &'a ProgInfo,
+    pub k: usize,
+}
+
+impl ProgView<'_> {
+    pub fn model_leaf(&self, order: &[u8], cps: &[usize], transitions: &mut u64) -> u32 {
+        let mut m = PctModel {
+            order: order.to_vec(),
+            change_points: cps.to_vec(),
+            steps: 0,
+            max_steps: self.k,
+        };
+        let pi = self.pi;
+        let mut at = 0u16;
+        let mut current: Option<u8> = None;
+        loop {
+            let nd = &pi.tree.nodes[at as usize];
+            if nd.arity == 0 {
+                return pi.leaf_index[at as usize];
             }
             let off = &nd.ids[..nd.arity as usize];
             let c = m.decide(off, current, nd.yielding);
@@ -398,8 +483,33 @@ pub fn num_points(d: usize, k: usize) -> usize {
     (d - 1).min(k.saturating_sub(1))
 }
 
-/// Exact leaf distribution of the model for depth parameter d: count of (order, change-point set)
-/// pairs per leaf, and the total number of pairs.
+/// The value PCT's running estimate of k settles at for depth parameter d: start from the
+/// estimation run (oldest task first, yields demote), then close under "a schedule the model can
+/// produce with the current estimate has more multi-choice steps".
+pub fn settled_k(pi: &ProgInfo, d: usize, perms: &[Vec<u8>]) -> usize {
+    let mut t = 0u64;
+    let ident: Vec<u8> = (0..pi.prog.n() as u8).collect();
+    let est = pi.with_k(1usize.max(0)).model_leaf(&ident, &[], &mut t);
+    let mut k = pi.multi[est as usize];
+    loop {
+        let view = pi.with_k(k);
+        let sets = change_point_sets(k, num_points(d, k));
+        let mut k2 = k;
+        for o in perms {
+            for cps in &sets {
+                let l = view.model_leaf(o, cps, &mut t);
+                k2 = k2.max(pi.multi[l as usize]);
+            }
+        }
+        if k2 == k {
+            return k;
+        }
+        k = k2;
+    }
+}
+
+/// Exact leaf distribution of the model for depth parameter d with estimate `pi.k`: count of
+/// (order, change-point set) pairs per leaf, and the total number of pairs.
 pub fn model_distribution(pi: &ProgInfo, d: usize, perms: &[Vec<u8>], states: &mut u64, transitions: &mut u64) -> (Vec<u64>, u64) {
     let sets = change_point_sets(pi.k, num_points(d, pi.k));
     let mut cnt = vec![0u64; pi.leaves.len()];
@@ -418,7 +528,7 @@ pub fn model_distribution(pi: &ProgInfo, d: usize, perms: &[Vec<u8>], states: &m
 #[derive(Clone, Debug)]
 pub struct Bug {
     pub constraints: Vec<Constraint>,
-    pub leaves: u128,
+    pub leaves: Bits,
     /// minimal number of ordering constraints that guarantee the bug
     pub depth: usize,
 }
@@ -427,12 +537,12 @@ pub struct Bug {
 /// exact depth (the least number of constraints whose non-empty satisfying set lies inside the bug).
 pub fn bugs(pi: &ProgInfo, maxc: usize) -> Vec<Bug> {
     let cons = pi.constraints();
-    let sats: Vec<u128> = cons.iter().map(|c| pi.sat(c)).collect();
+    let sats: Vec<Bits> = cons.iter().map(|c| pi.sat(c)).collect();
     // satisfying sets of all constraint sets of size 1..=maxc (indices ascending)
-    let mut by_size: Vec<Vec<(Vec<usize>, u128)>> = vec![Vec::new(); maxc + 1];
+    let mut by_size: Vec<Vec<(Vec<usize>, Bits)>> = vec![Vec::new(); maxc + 1];
     for i in 0..cons.len() {
-        if sats[i] != 0 {
-            by_size[1].push((vec![i], sats[i]));
+        if !sats[i].is_empty() {
+            by_size[1].push((vec![i], sats[i].clone()));
         }
     }
     for sz in 2..=maxc {
@@ -440,8 +550,8 @@ pub fn bugs(pi: &ProgInfo, maxc: usize) -> Vec<Bug> {
         for (idx, s) in prev {
             let last = *idx.last().unwrap();
             for j in last + 1..cons.len() {
-                let s2 = s & sats[j];
-                if s2 != 0 {
+                let s2 = s.and(&sats[j]);
+                if !s2.is_empty() {
                     let mut i2 = idx.clone();
                     i2.push(j);
                     by_size[sz].push((i2, s2));
@@ -449,18 +559,18 @@ pub fn bugs(pi: &ProgInfo, maxc: usize) -> Vec<Bug> {
             }
         }
     }
-    let mut seen: BTreeSet<u128> = BTreeSet::new();
+    let mut seen: BTreeSet<Bits> = BTreeSet::new();
     let mut out = Vec::new();
     for sz in 1..=maxc {
         for (idx, s) in &by_size[sz] {
-            if !seen.insert(*s) {
+            if !seen.insert(s.clone()) {
                 continue; // the same set of schedules was already produced by a set of at most this size
             }
             // depth: smallest size of a constraint set whose (non-empty) satisfying set is inside s
             let mut depth = sz;
             'outer: for sz2 in 1..sz {
                 for (_, s2) in &by_size[sz2] {
-                    if *s2 & !*s == 0 {
+                    if s2.subset_of(s) {
                         depth = sz2;
                         break 'outer;
                     }
@@ -468,7 +578,7 @@ pub fn bugs(pi: &ProgInfo, maxc: usize) -> Vec<Bug> {
             }
             out.push(Bug {
                 constraints: idx.iter().map(|i| cons[*i]).collect(),
-                leaves: *s,
+                leaves: s.clone(),
                 depth,
             });
         }
